@@ -262,6 +262,22 @@ def translate():
             continue
         out.append('Definition owner%s (c : cls) : owner :=\n  match c with\n%s\n  | CLeaf => OwnOperator\n  end.\n'
                    % (m.strip('_').join(['_', '']), '\n'.join(rows)))
+    # Python tries the REFLECTED method of the right operand first when its class is a proper subclass
+    # of the left operand's class and provides a different reflected method
+    for m, nm in (('__radd__', 'reflected_first_add'), ('__rmul__', 'reflected_first_mul')):
+        pairs = []
+        for cb, pb in CLASSES:
+            for ca, pa in CLASSES:
+                if pb != pa and pa in _mro(pb, classes) and owner(pb, m, classes) != owner(pa, m, classes):
+                    pairs.append('%s, %s' % (cb, ca))
+        out.append('Definition %s (b a : cls) : bool :=\n  match b, a with\n  | %s => true\n  | _, _ => false\n  end.\n'
+                   % (nm, '\n  | '.join(pairs)) if pairs else
+                   'Definition %s (b a : cls) : bool := false.\n' % nm)
+    for m in ('__rmatmul__', '__rsub__'):
+        for cb, pb in CLASSES:
+            for ca, pa in CLASSES:
+                if pb != pa and pa in _mro(pb, classes) and owner(pb, m, classes) != owner(pa, m, classes):
+                    raise TranslateError('%s of %s differs from %s: reflected-first for it is not modelled' % (m, pb, pa))
     # leaves: a Functional leaf resolves like Functional, any other leaf like Operator -- provided
     # no odl class overrides an arithmetic dunder (checked here on the three files)
     for name, (rel, cd) in classes.items():
